@@ -26,9 +26,26 @@ def run_l1(binary, cases, workers=8, tag="l1"):
     with ThreadPoolExecutor(max_workers=n) as ex:
         res = list(ex.map(job, range(n)))
     out = [None] * len(cases)
+    skipped = []
     for k in range(n):
         for j, o in enumerate(res[k]):
-            out[k + j * n] = o.get("obs", []) if isinstance(o, dict) else []
+            if isinstance(o, dict) and "skipped" in o:
+                skipped.append(k + j * n)
+                out[k + j * n] = [{"skipped": True}]
+            else:
+                out[k + j * n] = o.get("obs", []) if isinstance(o, dict) else []
+    # cases skipped because an earlier case of their process left a runaway goroutine: run them again in fresh processes
+    rounds = 0
+    while skipped and rounds < 4:
+        rounds += 1
+        redo = run_harness(binary, "l1", [cases[i] for i in skipped], tag=f"{tag}_redo", timeout=1500)
+        still = []
+        for i, o in zip(skipped, redo):
+            if isinstance(o, dict) and "skipped" in o:
+                still.append(i)
+            else:
+                out[i] = o.get("obs", []) if isinstance(o, dict) else []
+        skipped = still
     return out
 
 
